@@ -20,6 +20,27 @@ CHECKS = {
              "tied by differential runs against the compiled model.",
         note="register values within width; bursts confined to the body or to the checksum field (DESIGN 8.1)",
         design="7/C03"),
+    "C05": dict(
+        technique="Lean 4 proof: bit-field code translated from the Python ast, 34 get/set laws by bit-level case "
+                  "analysis, byte image of built+stamped frames, reference decoder and library decoder round trips; "
+                  "differential frame/deframe/ack ops",
+        text="Kernel-checked: each with_x sets x (masked) and leaves the other fields unchanged for every header value; "
+             "every frame built by mkData/stamp (to_frame, fragments) serializes to marker, length = bytes after the "
+             "marker, type 6, flags|seq, CRC8, CRC16, body; an independent decoder and Frame.deserialize recover it "
+             "and consume exactly the frame; all 8 ACKs. Accessor code is regenerated from the source ast each run; "
+             "real frames of all 145 classes are compared byte for byte.",
+        note="body <= 65530 bytes; non-negative setter arguments",
+        design="7/C05"),
+    "C09": dict(
+        technique="Lean 4 proof: index-based fragmenter model, normal form first::mids++[last], slice algebra; "
+                  "partition theorem for every length; exhaustive differential run over all lengths 4..998",
+        text="Kernel-checked for every header and payload of any length: bodies concatenate to the message, each is "
+             "1..247 bytes with a length field equal to its real size, one frame with both flags iff it fits, "
+             "otherwise exactly the head is flagged first and exactly the last is flagged last. Tied by comparing "
+             "real handle_tx_fragmentation with the model for every length (exhaustive in the range) and by the "
+             "reference decoder on every real fragment.",
+        note="non-zero command header (true of all 145 commands); 247 regenerated from frames.py",
+        design="7/C09"),
 }
 
 NOT_YET = "check not built yet in this revision of /verif (planned, see DESIGN.md section 7)"
